@@ -426,7 +426,7 @@ def classify_while(fa: FuncAnalysis, st: ast.While):
     if const_true:
         for s in body:
             if isinstance(s, ast.Try):
-                drives = any(isinstance(x, ast.Call) and call_attr(x) in ("next", "send", "asend", "__next__", "anext")
+                drives = any(isinstance(x, ast.Call) and call_attr(x) in ("next", "send", "asend", "__next__", "__anext__", "anext")
                              for b in s.body for x in walk_shallow(b))
                 stops = [h for h in s.handlers if any(t.split(".")[-1] in ("StopIteration", "StopAsyncIteration")
                                                        for t in handler_type_names(h))]
@@ -756,3 +756,6 @@ def check(run):
     run.floor("R04d", "while loops in the analysed modules", nl, 4)
     r04d_recursion(run, mods)
     r04e(run)
+    from . import c10
+    run.rules_run.append("R04f")
+    c10.r10e(run, in_scope_functions(run), rule="R04f")
